@@ -404,6 +404,65 @@ class _Starved(Exception):
     pass
 
 
+def _client_dataset(case, w, out, blocked):
+    '''the lock's main customers: Dataset.load() / update() of the shelve
+    backend (model.Interface) take the lock through comms.acquire, work, and
+    give it back - also when the algorithm asks to abort at any of its
+    abort() polls or the call fails otherwise'''
+    import dawgie
+    import dawgie.db
+
+    from .. import store as storemod
+
+    c = storemod.classes()
+    polls = [0]
+
+    class Alg(c['Alg']):
+        def abort(self):
+            polls[0] += 1
+            return polls[0] == case.get('abort_at', 0)
+
+    val = storemod.val_class(0, 0, 0, [1, 0, 0])(['c13', case.get('dsop')])
+    alg = Alg('alpha', [1, 0, 0], [c['SV']('s', [1, 0, 0], {'v': val})])
+    bot = c['Bot']('tk', 1, 'T1', [alg])
+    known = list(w.all)
+    op = ['load', 'update', 'update+load'][case.get('dsop', 0) % 3]
+    out.label('dataset-' + op)
+    try:
+        ds = dawgie.db.connect(alg, bot, 'T1')
+        for name in op.split('+'):
+            getattr(ds, name)()
+    except dawgie.AbortAEError:
+        out.label('algorithm-aborted-at-poll-'
+                  + str(min(case.get('abort_at', 0), 3)))
+        out.nontrivial = True
+    except _Starved:
+        out.fail('progress/client-starves',
+                 f'the dataset call still waits for the lock after '
+                 f'{blocked[0]} poll periods; db_lock={w.ctx.db_lock}')
+        return out
+    for cl in [x for x in w.all if x not in known]:
+        # connections the dataset call opened for the lock: comms.acquire /
+        # release read their frames themselves
+        if cl.flag():
+            out.fail('client/lock-kept-after-the-dataset-call',
+                     f'{op} (abort at poll {case.get("abort_at", 0)}) is '
+                     f'over but its connection {cl.name} still owns the '
+                     f'lock; db_lock={w.ctx.db_lock}')
+        cl.seen = len(world.frames(cl.t.data))
+        cl.told = False
+        cl.released = True
+        cl.was_told_at_release = True
+        cl.alive = False
+        cl.lost_delivered = True
+    if out.failures:
+        return out
+    w.pump(out, 'dataset call done')
+    w.invariants(out, 'after the dataset call')
+    w.drain(out)
+    return out
+
+
 def _client_copy(case, w, out, blocked):
     '''a database copy (Func.dbcopy -> Worker._do_copy) competes for the lock
     like any client, closes and reopens the database while it holds it, and
@@ -430,8 +489,34 @@ def _client_copy(case, w, out, blocked):
         return real_copy(dbi)
 
     DBI.copy = slow_copy
+    real_open = DBI.open
+    failed = [False]
+    if case.get('open_fault'):
+        # reopening the shelve files fails once (too many open files)
+        def flaky_open(dbi):
+            if not failed[0] and not dbi.is_open:
+                failed[0] = True
+                out.label('reopen-fails-once-during-the-copy')
+                raise OSError(24, 'Too many open files (injected)')
+            return real_open(dbi)
+
+        DBI.open = flaky_open
     try:
-        cw._do_copy([Method.connector, None])
+        try:
+            cw._do_copy([Method.connector, None])
+        except OSError:
+            # the copy failed loudly; lock and database must be in order
+            failed.append('raised')
+        except Exception as exc:  # pylint: disable=broad-except
+            if not failed[0]:
+                raise
+            out.fail('copy/fault-handling-raised',
+                     f'{type(exc).__name__}: {exc}; db_lock={w.ctx.db_lock} '
+                     f'database open={DBI().is_open}')
+            DBI.open = real_open
+            if not DBI().is_open:
+                DBI().open()
+            return out
     except _Starved:
         w.comms.util.make_staging_dir = real_staging
         DBI.copy = real_copy
@@ -442,8 +527,11 @@ def _client_copy(case, w, out, blocked):
     finally:
         w.comms.util.make_staging_dir = real_staging
         DBI.copy = real_copy
+        DBI.open = real_open
     got = world.frames(ct.data)
-    if not got or not isinstance(got[-1], dict):
+    if 'raised' in failed:
+        pass  # no answer is owed for a copy that failed loudly
+    elif not got or not isinstance(got[-1], dict):
         out.fail('copy/no-answer', f'{got!r:.200}')
     if not DBI().is_open:
         out.fail('copy/database-left-closed', '')
@@ -513,6 +601,8 @@ def exec_client(case):
         if held_before:
             out.nontrivial = True
             out.label('acquire-while-held')
+        if case.get('copy') == 2:
+            return _client_dataset(case, w, out, blocked)
         if case.get('copy'):
             return _client_copy(case, w, out, blocked)
         try:
@@ -579,7 +669,10 @@ _client = st.fixed_dictionaries({
         st.lists(st.one_of(_acq, _acq, _adv), min_size=2, max_size=7)),
     'free_after': st.integers(1, 4),
     'how': st.integers(0, 1),
-    'copy': st.sampled_from([0, 1]),
+    'copy': st.sampled_from([0, 1, 1, 2, 2]),
+    'dsop': st.integers(0, 2),
+    'open_fault': st.sampled_from([0, 0, 1]),
+    'abort_at': st.sampled_from([0, 0, 1, 2, 3]),
     'copy_time': st.sampled_from([0.5, 3.0, 3.0, 6.5]),
     'phase': st.sampled_from([0.0, 0.5, 1.5, 2.75, 2.75, 2.875]),
 })
